@@ -83,6 +83,40 @@ def xml_doc(draw, names, uris):
     return etree.tostring(node(0), encoding="unicode")
 
 
+NS_POOL = ["http://example.com/alpha/one", "http://example.com/alpha/two", "http://example.com/beta/two", "http://example.com/beta",
+           "urn:shop:orders", "urn:shop:common:types", "urn:x", "http://example.com/main/deep/er"]
+TYPE_NAMES = ["Item", "Address", "Code", "itemClass", "Party"]
+LEAF_TYPES = ["string", "int", "decimal", "date", "boolean"]
+
+
+@st.composite
+def multi_xsd(draw):
+    """2-4 leaf schemas, one namespace each, declaring complex types with names from a small pool (so names recur across
+    namespaces) and a main schema that imports them all and uses their types."""
+    uris = draw(st.lists(st.sampled_from(NS_POOL), min_size=2, max_size=4, unique=True))
+    files, uses = {}, []
+    for i, ns in enumerate(uris):
+        names = draw(st.lists(st.sampled_from(TYPE_NAMES), min_size=1, max_size=3, unique=True))
+        body = []
+        for tn in names:
+            fields = draw(st.lists(st.sampled_from(PLAIN[:12]), min_size=1, max_size=3, unique=True))
+            els = "".join(f'<xs:element name="{f}" type="xs:{draw(st.sampled_from(LEAF_TYPES))}"{draw(st.sampled_from(["", " minOccurs=\"0\"", " maxOccurs=\"unbounded\""]))}/>'
+                          for f in fields)
+            body.append(f'<xs:complexType name="{tn}"><xs:sequence>{els}</xs:sequence></xs:complexType>')
+            uses.append((i, tn))
+        files[f"leaf{i}.xsd"] = (f'<?xml version="1.0" encoding="UTF-8"?>\n<xs:schema xmlns:xs="http://www.w3.org/2001/XMLSchema" targetNamespace="{ns}" '
+                                 f'elementFormDefault="qualified">{"".join(body)}</xs:schema>\n')
+    main_ns = draw(st.sampled_from(["http://example.com/main", "urn:main", NS_POOL[0] + "/main"]))
+    picked = draw(st.lists(st.sampled_from(uses), min_size=2, max_size=min(6, len(uses)), unique=True)) if len(uses) >= 2 else uses
+    decl = "".join(f' xmlns:n{i}="{ns}"' for i, ns in enumerate(uris))
+    imports = "".join(f'<xs:import namespace="{ns}" schemaLocation="leaf{i}.xsd"/>' for i, ns in enumerate(uris))
+    els = "".join(f'<xs:element name="e{k}" type="n{i}:{tn}"/>' for k, (i, tn) in enumerate(picked))
+    files["main.xsd"] = (f'<?xml version="1.0" encoding="UTF-8"?>\n<xs:schema xmlns:xs="http://www.w3.org/2001/XMLSchema"{decl} targetNamespace="{main_ns}" '
+                         f'elementFormDefault="qualified">{imports}<xs:element name="Basket"><xs:complexType><xs:sequence>{els}</xs:sequence>'
+                         f'</xs:complexType></xs:element></xs:schema>\n')
+    return files
+
+
 @st.composite
 def cases(draw, family):
     opts = draw(options())
@@ -90,6 +124,10 @@ def cases(draw, family):
     if family == "xsd":
         spec = draw(S.schema_specs(S.Opts(name_pool=S.PLAIN_NAMES + ["itemClass", "UnitClass"])))
         return {"family": "xsd", "spec": spec, "options": opts, "hash_seeds": hseeds}
+    if family == "multi-xsd":
+        if draw(st.booleans()):
+            opts["structure_style"] = "namespaces"
+        return {"family": "multi-xsd", "files": draw(multi_xsd()), "options": opts, "hash_seeds": hseeds}
     if family == "xml":
         names = draw(st.lists(st.sampled_from(PLAIN), min_size=3, max_size=8, unique=True))
         uris = draw(st.sampled_from(URI_SETS))
@@ -101,6 +139,8 @@ def cases(draw, family):
 def sources_of(case):
     if case["family"] == "xsd":
         return {"schema.xsd": S.render_xsd(case["spec"])}
+    if case["family"] == "multi-xsd":
+        return dict(case["files"])
     if case["family"] == "xml":
         return {f"sample{i}.xml": d for i, d in enumerate(case["docs"])}
     return {Path(p).name: (FIX / p).read_text(encoding="utf-8") for p in FIXTURES[case["fixture"]]}
@@ -137,6 +177,8 @@ def execute(case, col):
         ref = run_route("api", 0, sources, opts, os.path.join(base, "ref"))
         routes = [("api", case["hash_seeds"][0]), ("api", case["hash_seeds"][1]), ("api-twice", 0), ("cli", case["hash_seeds"][0]),
                   ("cli-config", case["hash_seeds"][1]), ("cli-cache-twice", case["hash_seeds"][0])]
+        if case["family"] == "multi-xsd":
+            routes += [("api", 5), ("api", 11), ("api", 77)]
         if any(n.endswith(".wsdl") for n in sources):
             routes = [r for r in routes if r[0] != "cli-cache-twice" or case.get("force_cache_route")]     # recorded finding: warm cache + WSDL
         done = 0
@@ -170,8 +212,8 @@ def execute(case, col):
 
 def plan(tier, seed):
     per = {"quick": 8, "thorough": 80}[tier]
-    nsh = {"quick": 5, "thorough": 16}[tier]
-    return [{"family": fam, "n": per, "seed": seed * 1000 + 10 * i + k} for k, fam in enumerate(("xsd", "xml", "fixture")) for i in range(nsh)]
+    nsh = {"quick": 4, "thorough": 16}[tier]
+    return [{"family": fam, "n": per, "seed": seed * 1000 + 10 * i + k} for k, fam in enumerate(("xsd", "xml", "fixture", "multi-xsd")) for i in range(nsh)]
 
 
 def run_shard(shard, col):
